@@ -582,6 +582,9 @@ func newRules(rules []rule) (Rules, error) {
 				if owner && r.Kind() == LINK {
 					r.(*Link).Owner = owner
 				}
+				if owner && r.Kind() == FILE {
+					r.(*File).Owner = owner // owner file /a r,
+				}
 				res = append(res, r)
 			} else {
 				raw := rule.Get(0)
